@@ -157,3 +157,51 @@ Example C11_quirk_1101_refuted :
   cut ex_defs ex_opts (pe_parse true) true 5 (TStruct 0) (TStruct 0) (encode ex_val) = COk ([], encode ex_val) /\
   cut ex_defs ex_opts (pe_parse true) false 5 (TStruct 0) (TStruct 0) (encode ex_val) = COk (encode ex_val, []).
 Proof. vm_compute. split; reflexivity. Qed.
+
+(* ================= Protobuf half (proto/generic Value.MarshalTo) ================= *)
+From DG Require Import CaseFormat ProtoCut ProtoCutProofs.
+
+(* at every message level the output holds exactly the source fields whose NUMBER is declared by both schemas, in
+   source order; scalar-kind fields keep their raw bytes, message-kind fields hold the projection of their payload *)
+Theorem C11_proto_fields_exact :
+  forall dis rec ffs tfs fs out, pproj_fields dis rec ffs tfs fs = COk out ->
+  Forall2 (fun f t => match f with WF num wt raw =>
+             exists ff tf, pfind num ffs = Some ff /\ pfind num tfs = Some tf /\ pf_kind ff = pf_kind tf /\
+               ((pf_kind ff <> K_MESSAGE /\ t = TLeaf num wt raw) \/
+                (pf_kind ff = K_MESSAGE /\ wt = 2 /\ exists kids, rec (pf_sub ff) (pf_sub tf) (payload raw) = COk kids /\ t = TMsg num wt kids)) end)
+          (filter (fun f => p_in_both ffs tfs (wf_num f)) fs) out.
+Proof. exact pproj_fields_exact. Qed.
+Print Assumptions C11_proto_fields_exact.
+
+Theorem C11_proto_numbers_are_intersection_in_source_order :
+  forall dis rec ffs tfs fs out, pproj_fields dis rec ffs tfs fs = COk out ->
+  map tree_num out = filter (p_in_both ffs tfs) (map wf_num fs).
+Proof. exact pproj_fields_numbers. Qed.
+Print Assumptions C11_proto_numbers_are_intersection_in_source_order.
+
+Theorem C11_proto_unknown_is_error_when_disallowed :
+  forall dis rec ffs tfs fs, (exists f, In f fs /\ pfind (wf_num f) ffs = None) -> dis = true ->
+  forall out, pproj_fields dis rec ffs tfs fs <> COk out.
+Proof. exact pproj_fields_unknown. Qed.
+Print Assumptions C11_proto_unknown_is_error_when_disallowed.
+
+(* the generic wire decoder the check judges with reads back every canonically encoded field sequence *)
+Theorem C11_proto_wire_decoder_roundtrip :
+  forall fs, Forall wfield_ok fs -> forall fuel, (length fs < fuel)%nat -> wire_fields fuel (flat_map enc_wfield fs) = Some fs.
+Proof. exact wire_fields_enc. Qed.
+Print Assumptions C11_proto_wire_decoder_roundtrip.
+
+(* F{x=7, m={a=10, b="x"}} cut from FU{1:int32, 2:InU{2:string}, 7:string} to itself with DisallowUnknown: the nested
+   field 1 is unknown -> the specification demands an error; the unrepaired walker (quirk) drops the inner error *)
+Definition ex_pdefs : pdefs := [ [(1, 5, -1); (2, 11, 1); (7, 9, -1)]; [(2, 9, -1)] ].
+Definition ex_pmsg : list Z := [8; 7; 18; 5; 8; 10; 18; 1; 120].
+Example C11_proto_example_spec : pproject ex_pdefs true 10 0 0 ex_pmsg = CErr 1.
+Proof. vm_compute. reflexivity. Qed.
+Example C11_proto_example_allowed :
+  pproject ex_pdefs false 10 0 0 ex_pmsg = COk [TLeaf 1 0 [7]; TMsg 2 2 [TLeaf 2 2 [1; 120]]] /\
+  pbcut ex_pdefs false false 10 0 0 ex_pmsg 0 = (0, [], [8; 7; 18; 3; 18; 1; 120]).
+Proof. vm_compute. split; reflexivity. Qed.
+Example C11_quirk_1102_refuted :
+  fst (fst (pbcut ex_pdefs true false 10 0 0 ex_pmsg 0)) = 1 /\
+  pbcut ex_pdefs true true 10 0 0 ex_pmsg 0 <> pbcut ex_pdefs true false 10 0 0 ex_pmsg 0.
+Proof. vm_compute. split; [reflexivity|discriminate]. Qed.
